@@ -8,14 +8,16 @@ antider(x, P) a supplied antiderivative.  Exactness lemmas (z3 NRA) fix nodes an
 """
 import z3
 from .base import *
+from . import errlib
 
-FILES = ["kafe2/fit/histogram/model.py", "kafe2/fit/histogram/container.py", "kafe2/fit/indexed/container.py", "kafe2/fit/_base/container.py", "kafe2/fit/_base/model.py", "kafe2/fit/histogram/fit.py", "kafe2/fit/_base/fit.py"]
+FILES = ["kafe2/fit/histogram/model.py", "kafe2/fit/histogram/container.py", "kafe2/fit/indexed/container.py", "kafe2/fit/_base/container.py", "kafe2/fit/_base/model.py", "kafe2/fit/histogram/fit.py", "kafe2/fit/_base/fit.py"] + errlib.ERR_FILES
 SCHEMA = {
     "HistParametricModel": {"_bin_edges": SEQ, "_data": SEQ, "_model_parameters": SEQ, "_pm_calculation_stale": BOOL, "_model_function_object": FUN, "_bin_evaluation": FUN,
-                            "_bin_evaluation_method": PYOBJ, "_unprocessed_entries": SEQ, "_processed_entries": SEQ, "_manual_heights": BOOL, "_density": BOOL, "_total_error": REF("MatrixGaussianError")},
+                            "_bin_evaluation_method": PYOBJ, "_unprocessed_entries": SEQ, "_processed_entries": SEQ, "_manual_heights": BOOL, "_density": BOOL, "_total_error": REF("MatrixGaussianError"), "_error_dicts": NAMEMAP("ErrEntry")},
     "__pylists__": {("HistParametricModel", "_processed_entries"), ("HistParametricModel", "_unprocessed_entries")},
     "HistFit": {"_param_model": REF("HistParametricModel"), "_data_container": REF("HistContainer")},
 }
+SCHEMA.update(errlib.ERR_SCHEMA)
 META = {
     "level": "proof",
     "trusted_base": [
@@ -151,8 +153,12 @@ def u_lazy(root, name):
     def init(e, st, me_):
         e.write_field(st, me_, "_bin_evaluation_method", VBound(me_, "_bin_evaluation_" + name))
         return {}
+    errlib.c_reference_setter(eng)
+    ESlen = H("_error_dicts", "namemap", "len")[me]
     c = Contract("HistParametricModel", "_recalculate")
-    c.requires.append(lambda vw: z3.And(nE >= 1, H("_data", "seq", "len")[me] == nE + 1, H("_unprocessed_entries", "seq", "len")[me] == 0))
+    c.requires.append(lambda vw: z3.And(nE >= 1, H("_data", "seq", "len")[me] == nE + 1, H("_unprocessed_entries", "seq", "len")[me] == 0, ESlen >= 0))
+    # the loop re-pointing the uncertainty sources touches only the source objects; the freshly written bin contents are framed
+    c.loops[0] = lambda e, s: z3.And(0 <= s.locals["#i0"].e, s.locals["#i0"].e <= ESlen)
     c.ensures.append(lambda vw: [("stored bin contents = rule at the current parameters and edges", matches(vw, vw.post, name)), ("model invariant established for the current parameters", inv_pm(vw, vw.post, name)),
                                  ("underflow/overflow slots untouched", z3.And(vw.f(vw.post, vw.self, "_data").arr[0] == vw.f(vw.pre, vw.self, "_data").arr[0], vw.f(vw.post, vw.self, "_data").arr[nE] == vw.f(vw.pre, vw.self, "_data").arr[nE]))])
     eng.verify("HistParametricModel", "_recalculate", None, init, contract=c, tag=f"({name})")
